@@ -556,28 +556,28 @@ func (r styleRule) accepts(v string) bool {
 const dataURIFn = 100 // the documented check of AllowDataURIImages
 
 type Model struct {
-	strict     bool
-	els        map[string]bool
-	elRes      []*regexp.Regexp
-	elAttrs    map[string]map[string][]rule
-	reAttrs    map[*regexp.Regexp]map[string][]rule
-	globAttrs  map[string][]rule
-	bare       map[string]bool
-	bareRes    []*regexp.Regexp
-	skip       map[string]bool
-	elStyles   map[string]map[string][]styleRule
-	reStyles   map[*regexp.Regexp]map[string][]styleRule
-	globStyles map[string][]styleRule
-	dataAttrs  bool
-	comments   bool
-	spaces     bool
-	parseURLs  bool
-	relative   bool
-	schemes    map[string][]int // scheme -> custom check ids (empty = unconditional)
-	schemeRes  []*regexp.Regexp
-	rewriter   int
+	strict                                                         bool
+	els                                                            map[string]bool
+	elRes                                                          []*regexp.Regexp
+	elAttrs                                                        map[string]map[string][]rule
+	reAttrs                                                        map[*regexp.Regexp]map[string][]rule
+	globAttrs                                                      map[string][]rule
+	bare                                                           map[string]bool
+	bareRes                                                        []*regexp.Regexp
+	skip                                                           map[string]bool
+	elStyles                                                       map[string]map[string][]styleRule
+	reStyles                                                       map[*regexp.Regexp]map[string][]styleRule
+	globStyles                                                     map[string][]styleRule
+	dataAttrs                                                      bool
+	comments                                                       bool
+	spaces                                                         bool
+	parseURLs                                                      bool
+	relative                                                       bool
+	schemes                                                        map[string][]int // scheme -> custom check ids (empty = unconditional)
+	schemeRes                                                      []*regexp.Regexp
+	rewriter                                                       int
 	noFollow, noFollowFQ, noRef, noRefFQ, targetBlank, crossOrigin bool
-	sandbox map[string]bool
+	sandbox                                                        map[string]bool
 }
 
 var defaultBare = strings.Fields(`abbr acronym address article aside audio b bdi blockquote body br button canvas caption center cite code col colgroup datalist dd del details dfn div dl dt em fieldset figcaption figure footer h1 h2 h3 h4 h5 h6 head header hgroup hr html i ins kbd li mark marquee nav ol optgroup option p picture pre q rp rt ruby s samp script section select small span strike strong style sub summary sup svg table tbody td textarea tfoot th thead title time tr tt u ul var video wbr`)
